@@ -73,6 +73,11 @@ type c09Obs struct {
 	RmCount      int      `json:"rm_count"` // messages returned by the plain ReadMessage loop
 	RmSame       bool     `json:"rm_same"`  // ... equal to what the handler got
 	Hang         bool     `json:"hang"`
+	// big cases only: the written bytes walked with the lengths of the replies the handler returned
+	Frames    []c09Msg `json:"frames"`     // (type field, length field) found where each reply frame must start
+	RepliesOK bool     `json:"replies_ok"` // every reply body found in full where it must be
+	Left      string   `json:"left"`       // what follows the last reply frame (at most 64 bytes shown)
+	LeftLen   int      `json:"left_len"`
 }
 
 func c09Stream(segs []c09Seg) []byte {
@@ -110,11 +115,25 @@ func c09Chunks(stream []byte, sizes []int) [][]byte {
 
 // ---- handler -------------------------------------------------------------------------------
 
+type c09Reply struct {
+	t uint32
+	b []byte
+}
+
 type c09Handler struct {
-	mu    sync.Mutex
-	mode  int
-	fixed []byte
-	got   []RawMessage
+	mu      sync.Mutex
+	mode    int
+	fixed   []byte
+	got     []RawMessage
+	replies []c09Reply // every non-nil reply returned, with the type of its request
+}
+
+func c09Pattern(n, a, b int) []byte {
+	out := make([]byte, n)
+	for i := range out {
+		out[i] = byte(a*i + b)
+	}
+	return out
 }
 
 func c09Copy(b []byte) []byte {
@@ -124,11 +143,31 @@ func c09Copy(b []byte) []byte {
 }
 
 func (h *c09Handler) HandleMessage(m RawMessage) ([]byte, error) {
+	r, err := h.handle(m)
+	if r != nil {
+		h.mu.Lock()
+		h.replies = append(h.replies, c09Reply{t: uint32(m.Type), b: c09Copy(r)})
+		h.mu.Unlock()
+	}
+	return r, err
+}
+
+func (h *c09Handler) handle(m RawMessage) ([]byte, error) {
 	h.mu.Lock()
 	defer h.mu.Unlock()
 	h.got = append(h.got, RawMessage{Type: m.Type, Bytes: c09Copy(m.Bytes)})
 	sub := h.mode
 	switch {
+	case h.mode == 6:
+		// the request's type is the reply length asked for; content = pattern (fixed[0], fixed[1])
+		a, b := 1, 0
+		if len(h.fixed) > 0 {
+			a = int(h.fixed[0])
+		}
+		if len(h.fixed) > 1 {
+			b = int(h.fixed[1])
+		}
+		return c09Pattern(int(uint32(m.Type)), a, b), nil
 	case h.mode == 4:
 		switch uint32(m.Type) % 5 {
 		case 0:
@@ -334,7 +373,37 @@ func c09Run(t *testing.T, cs c09Case) c09Obs {
 		written = c.written.Bytes()
 		obs.Closed = c.closed
 	}
-	obs.Written = hex.EncodeToString(written)
+	if cs.Big {
+		h.mu.Lock()
+		reps := h.replies
+		h.mu.Unlock()
+		obs.RepliesOK = true
+		obs.Frames = []c09Msg{}
+		pos := 0
+		for _, rp := range reps {
+			if pos+8 > len(written) {
+				obs.RepliesOK = false
+				break
+			}
+			obs.Frames = append(obs.Frames, c09Msg{T: byteOrder.Uint32(written[pos+4 : pos+8]), N: int(byteOrder.Uint32(written[pos : pos+4]))})
+			end := pos + 8 + len(rp.b)
+			if end > len(written) || !bytes.Equal(written[pos+8:end], rp.b) {
+				obs.RepliesOK = false
+			}
+			if end > len(written) {
+				end = len(written)
+			}
+			pos = end
+		}
+		left := written[pos:]
+		obs.LeftLen = len(left)
+		if len(left) > 64 {
+			left = left[:64]
+		}
+		obs.Left = hex.EncodeToString(left)
+	} else {
+		obs.Written = hex.EncodeToString(written)
+	}
 
 	h.mu.Lock()
 	got := h.got
@@ -444,6 +513,47 @@ func c09RunTable(idx int, ti c09TableIn) c09TableOut {
 	return c09TableOut{Table: idx, Legacy: legacy.Text(16), Silent: silent.Text(16), Done: 65536}
 }
 
+// direct use of the exported writer: a sequence of Write / WriteString calls on ONE MessageWriter
+type c09WriterIn struct {
+	A   int `json:"a"`
+	B   int `json:"b"`
+	Ops []struct {
+		S   bool   `json:"s"` // WriteString instead of Write
+		Len int    `json:"len"`
+		T   uint32 `json:"t"`
+	} `json:"ops"`
+}
+
+type c09WriterOut struct {
+	Writer  int    `json:"writer"`
+	Written string `json:"written"`
+	Counts  []int  `json:"counts"` // the n returned by each call
+	Errs    int    `json:"errs"`
+}
+
+func c09RunWriter(idx int, wi c09WriterIn) c09WriterOut {
+	var buf bytes.Buffer
+	mw := MessageWriter{W: &buf}
+	out := c09WriterOut{Writer: idx, Counts: []int{}}
+	for _, op := range wi.Ops {
+		p := c09Pattern(op.Len, wi.A, wi.B)
+		mw.Type = MessageType(op.T)
+		var n int
+		var err error
+		if op.S {
+			n, err = mw.WriteString(string(p))
+		} else {
+			n, err = mw.Write(p)
+		}
+		out.Counts = append(out.Counts, n)
+		if err != nil {
+			out.Errs++
+		}
+	}
+	out.Written = hex.EncodeToString(buf.Bytes())
+	return out
+}
+
 func TestVerifC09(t *testing.T) {
 	inPath, outPath := os.Getenv("VERIF_IN"), os.Getenv("VERIF_OUT")
 	if inPath == "" {
@@ -456,7 +566,8 @@ func TestVerifC09(t *testing.T) {
 	}
 	var in struct {
 		Cases  []c09Case    `json:"cases"`
-		Tables []c09TableIn `json:"tables"`
+		Tables  []c09TableIn  `json:"tables"`
+		Writers []c09WriterIn `json:"writers"`
 	}
 	if err := json.Unmarshal(raw, &in); err != nil {
 		t.Fatal(err)
@@ -470,6 +581,10 @@ func TestVerifC09(t *testing.T) {
 	for _, cs := range in.Cases {
 		obs := c09Run(t, cs)
 		b, _ := json.Marshal(obs)
+		f.Write(append(b, '\n'))
+	}
+	for i, wi := range in.Writers {
+		b, _ := json.Marshal(c09RunWriter(i, wi))
 		f.Write(append(b, '\n'))
 	}
 	for i, ti := range in.Tables {
